@@ -201,7 +201,69 @@ func genHubTable() {
 		a, b := hub.funcDecl("Hub", "ServeHTTP"), hub.funcDecl("Hub", "connectFoundService")
 		recheck = a != nil && b != nil && callsMethod(a.Body, "registerCheckedConnection") && callsMethod(b.Body, "registerCheckedConnection")
 	}
+	// registerCheckedConnection: the already-closed check and the store into h.connections are one
+	// critical section of h.muxCon - the lock is taken (top-level statement) before the statement
+	// that asks IsDataConnectionClosed, and no top-level Unlock stands between that statement
+	// and the store (an Unlock inside the early-return branch of the check is fine)
+	atomic := false
+	if rc := hub.funcDecl("Hub", "registerCheckedConnection"); rc != nil && rc.Body != nil {
+		isLockCall := func(st ast.Stmt, name string) bool {
+			es, ok := st.(*ast.ExprStmt)
+			if !ok {
+				if ds, ok := st.(*ast.DeferStmt); ok && name == "deferUnlock" {
+					if sel, ok := ds.Call.Fun.(*ast.SelectorExpr); ok && sel.Sel.Name == "Unlock" {
+						if in, ok := sel.X.(*ast.SelectorExpr); ok && in.Sel.Name == "muxCon" {
+							return true
+						}
+					}
+				}
+				return false
+			}
+			ce, ok := es.X.(*ast.CallExpr)
+			if !ok {
+				return false
+			}
+			sel, ok := ce.Fun.(*ast.SelectorExpr)
+			if !ok || sel.Sel.Name != name {
+				return false
+			}
+			in, ok := sel.X.(*ast.SelectorExpr)
+			return ok && in.Sel.Name == "muxCon"
+		}
+		storesConn := func(st ast.Stmt) bool {
+			found := false
+			ast.Inspect(st, func(x ast.Node) bool {
+				if as, ok := x.(*ast.AssignStmt); ok {
+					for _, l := range as.Lhs {
+						if ix, ok := l.(*ast.IndexExpr); ok {
+							if sel, ok := ix.X.(*ast.SelectorExpr); ok && sel.Sel.Name == "connections" {
+								found = true
+							}
+						}
+					}
+				}
+				return true
+			})
+			return found
+		}
+		lockAt, checkAt, storeAt, unlockBetween := -1, -1, -1, false
+		for i, st := range rc.Body.List {
+			switch {
+			case isLockCall(st, "Lock") && lockAt < 0:
+				lockAt = i
+			case callsMethod(st, "IsDataConnectionClosed") && checkAt < 0:
+				checkAt = i
+			case storesConn(st) && storeAt < 0:
+				storeAt = i
+			case isLockCall(st, "Unlock") && checkAt >= 0 && storeAt < 0:
+				unlockBetween = true
+			}
+		}
+		atomic = lockAt >= 0 && checkAt > lockAt && storeAt > checkAt && !unlockBetween
+	}
 	fmt.Fprintf(&sb, "Definition hub_stale_attempt_reannounces : bool := %s.\n", b(stale))
 	fmt.Fprintf(&sb, "Definition hub_register_rechecks : bool := %s.\n", b(recheck))
+	fmt.Fprintf(&sb, "(* registerCheckedConnection: closed-check and registry store in one critical section of muxCon *)\n")
+	fmt.Fprintf(&sb, "Definition hub_register_atomic : bool := %s.\n", b(atomic))
 	writeIfChanged("HubTable.v", sb.String())
 }
